@@ -73,7 +73,18 @@ def table_match(ctx, facts):
             for bb, idx, s in b.iter_assigns():
                 if s["p"] == [1, "*"] and s["r"]["k"] == "use":
                     e = flow.expr_of(b, s["r"]["o"], max_depth=30)
-                    writes.append((bb, idx, e))
+                    es = flow.strip_casts(e)
+                    if es[0] == "place" and len(es) == 2:
+                        # `let next = match self { .. }; *self = next;`: the state written is the one each arm defined
+                        for dbb, didx, d in b.defs().get(es[1], []):
+                            if didx != "t" and d["k"] == "agg":
+                                vn = d.get("vn")
+                                ops_ = tuple(flow.expr_of(b, o, max_depth=30) for o in d.get("ops", []))
+                                writes.append((dbb, didx, ("agg", (d.get("adt"), vn), ops_)))
+                            elif didx != "t" and d["k"] == "use":
+                                writes.append((dbb, didx, flow.expr_of(b, d["o"], max_depth=30)))
+                    else:
+                        writes.append((bb, idx, e))
             for frm, to in want.items():
                 tgt = arm.get(frm)
                 got = set()
